@@ -113,7 +113,15 @@ pub fn c16(ctx: &Ctx, subj: &dyn DynSubject, ty: &Ty, entry: &SeqEntry, rep: &mu
                         let mut sink: Vec<u8> = Vec::new();
                         let env = json!({"announced": announced, "actual": actual, "nested": nested});
                         match guard(|| liar(&big, announced, actual, nested, &mut sink)) {
-                            Ok(Err(ser::Error::IteratorLengthMismatch { actual: a, expected: e })) if a == actual && e == announced => {}
+                            Ok(Err(ser::Error::IteratorLengthMismatch { actual: a, expected: e })) if a == actual && e == announced => {
+                                // the message a user reads must attribute the two counts correctly (checked wherever
+                                // the sentence names them)
+                                let msg = format!("{}", ser::Error::IteratorLengthMismatch { actual: a, expected: e });
+                                let num_after = |key: &str| -> Option<usize> { msg.find(key).and_then(|i| msg[i + key.len()..].split(|c: char| !c.is_ascii_digit()).next().and_then(|d| d.parse().ok())) };
+                                if num_after("expected ").map_or(false, |n| n != announced) || num_after("got ").map_or(false, |n| n != actual) {
+                                    return Err(Fail::new("liar-message-swapped", format!("iterator announcing {} items and yielding {}: the error's message reads {:?}", announced, actual, msg)).env(env));
+                                }
+                            }
                             Ok(Err(e)) => return Err(Fail::new("liar-wrong-error", format!("iterator announcing {} items and yielding {}: {:?}", announced, actual, e)).env(env)),
                             Ok(Ok(nb)) => return Err(Fail::new("liar-success", format!("iterator announcing {} items and yielding {}: serialization succeeded ({} bytes)", announced, actual, nb)).env(env)),
                             Err(p) => return Err(Fail::new(&format!("liar-panic:{}", panic_class(&p)), format!("iterator announcing {} items and yielding {}: panicked: {}", announced, actual, p)).env(env)),
